@@ -573,7 +573,9 @@ def _jacobian_rows(prog, rep):
                    "answers from variable containers only (by constructor signature or an isinstance guard returning None otherwise)" if not unguarded else
                    f"answers a row from the variables of .{unguarded[0]} without looking at its element expressions, although .{unguarded[0]} may be a MatrixExpression/VectorExpression (e.g. (X*Y).sum()): every entry comes out as if the elements were plain variables",
                    loc=loc, detail="container-operand")
-        if cname in ("VectorSum", "LinearCombination", "QuadraticForm", "MatrixSum", "DotProduct"):
+        if cname == "MatrixSum":
+            rep.section(_matrix_sum_row, prog, rep, m)
+        elif cname in ("VectorSum", "LinearCombination", "QuadraticForm", "DotProduct"):
             _row_by_scenario(prog, rep, cname, m)
         elif cname in ("VectorPowerSum", "VectorUnarySum"):
             _elementwise_row(prog, rep, cname, m)
@@ -670,6 +672,68 @@ ROW_SPECS = {
     "QuadraticForm": (["self.vector._variables"], {(True,): ["LinearCombination((self.matrix + self.matrix.T)[POS, :], self.vector)", "LinearCombination((self.matrix.T + self.matrix)[POS, :], self.vector)"], (False,): ["Constant(0.0)"]}),
     "MatrixSum": (["self.matrix.get_variables()"], {(True,): ["Constant(1.0)"], (False,): ["Constant(0.0)"]}),
 }
+
+
+def _matrix_sum_row(prog, rep, m):
+    """R03.4 for MatrixSum: d sum(X) / d v = the NUMBER OF CELLS of X that hold v.  A MatrixVariable may hold one Variable
+    in several cells (symmetric=True shares X[i,j] and X[j,i]; MatrixSum.evaluate adds every cell), so a row that
+    answers 1 for every member of the de-duplicated variable collection under-reports the off-diagonal variables."""
+    MS = prog.cls("MatrixSum")
+    MV = prog.cls("MatrixVariable")
+    ev = MS.methods.get("evaluate")
+    init = MV.methods.get("__init__")
+    shares = init is not None and any(a.arg == "symmetric" for a in init.node.args.args + init.node.args.kwonlyargs)
+    per_cell = ev is not None and any(isinstance(n, ast.Subscript) and isinstance(n.value, ast.Subscript) and src(n.value.value).endswith("._variables") for n in ast.walk(ev.node))
+    construct = "MatrixSum.jacobian_row"
+    asg = local_assignments(m.node)
+    rets = [r.value for r in walk_local(m.node) if isinstance(r, ast.Return) and r.value is not None and not (isinstance(r.value, ast.Constant) and r.value.value is None)]
+    if len(rets) != 1 or not isinstance(rets[0], ast.ListComp) or len(rets[0].generators) != 1 or src(rets[0].generators[0].iter) != m.node.args.args[1].arg:
+        rep.undecided(f"{construct}: the row is not built by one comprehension over `{m.node.args.args[1].arg}`; cell multiplicity not decided")
+        return
+    comp = rets[0]
+    V = src(comp.generators[0].target)
+    elt = comp.elt
+    # form A: Constant(1.0) if V in <collection> else Constant(0.0)
+    if isinstance(elt, ast.IfExp) and isinstance(elt.test, ast.Compare) and len(elt.test.ops) == 1 and isinstance(elt.test.ops[0], ast.In) and src(elt.test.left) in (V, f"{V}.name"):
+        coll = elt.test.comparators[0]
+        origin = [coll] + ([v for v in asg.get(coll.id, []) if isinstance(v, ast.AST)] if isinstance(coll, ast.Name) else [])
+        dedup = any(isinstance(c_, ast.Call) and ((isinstance(c_.func, ast.Attribute) and c_.func.attr == "get_variables") or dotted(c_.func) in ("set", "frozenset")) or isinstance(c_, (ast.SetComp, ast.Set)) for o in origin for c_ in ast.walk(o))
+        one = src(elt.body).replace(" ", "") in ("Constant(1.0)", "Constant(1)")
+        zero = src(elt.orelse).replace(" ", "") in ("Constant(0.0)", "Constant(0)")
+        if one and zero and dedup and shares and per_cell:
+            rep.ob("R03.4", construct, False,
+                   f"answers 1 for every variable in `{src(origin[-1])[:50]}`, a collection in which each variable occurs once, while MatrixSum.evaluate adds every cell of the matrix: a MatrixVariable built with symmetric=True holds "
+                   f"one Variable in X[i,j] and X[j,i], so d sum(X)/d X[i,j] is 2 for i != j -- the compiled Jacobian row under-reports it by half",
+                   loc=f"{m.module.rel}:{comp.lineno}", detail="cell-multiplicity", robust=True)
+            return
+        rep.undecided(f"{construct}: membership form `{src(elt)[:60]}` not related to the cells of the matrix by this rule")
+        return
+    # form B: Constant(float(C.get(V.name, 0))) with C counting the cells
+    inner = elt
+    if isinstance(inner, ast.Call) and dotted(inner.func) == "Constant" and inner.args:
+        a = inner.args[0]
+        if isinstance(a, ast.Call) and dotted(a.func) == "float" and a.args:
+            a = a.args[0]
+        if isinstance(a, ast.Call) and isinstance(a.func, ast.Attribute) and a.func.attr == "get" and isinstance(a.func.value, ast.Name) and len(a.args) == 2 and src(a.args[0]) in (V, f"{V}.name") and src(a.args[1]) in ("0", "0.0"):
+            C = a.func.value.id
+            key_by_name = src(a.args[0]).endswith(".name")
+            # C[k] = C.get(k, 0) + 1 inside loops over the cells of self.matrix._variables (or Counter(<cells>))
+            counted = False
+            for lp in [n for n in walk_local(m.node) if isinstance(n, ast.For)]:
+                if not (src(lp.iter).endswith("._variables") and "matrix" in src(lp.iter)):
+                    continue
+                for lp2 in [n for n in ast.walk(lp) if isinstance(n, ast.For) and n is not lp and src(n.iter) == src(lp.target)]:
+                    cell = src(lp2.target)
+                    k = f"{cell}.name" if key_by_name else cell
+                    for st in lp2.body:
+                        if isinstance(st, ast.Assign) and src(st.targets[0]) == f"{C}[{k}]" and src(st.value).replace(" ", "") in (f"{C}.get({k},0)+1", f"{C}.get({k},0.0)+1", f"{C}.get({k},0)+1.0"):
+                            counted = True
+                        if isinstance(st, ast.AugAssign) and src(st.target) == f"{C}[{k}]" and isinstance(st.op, ast.Add) and src(st.value) in ("1", "1.0"):
+                            counted = True
+            if counted:
+                rep.ob("R03.4", construct, True, f"entry = number of cells of the matrix that hold the variable (counted over `self.matrix._variables`), 0 for the others", loc=f"{m.module.rel}:{comp.lineno}", detail="cell-multiplicity", robust=True)
+                return
+    rep.undecided(f"{construct}: entry `{src(elt)[:60]}` not related to the cells of the matrix by this rule")
 
 
 def _row_by_scenario(prog, rep, cname, m):
